@@ -73,14 +73,20 @@ func runC05(p *Program, r *Report) {
 	}
 	const cn = "template.escapeTemplate"
 	pe := newPathExplorer(p, et)
+	pe.Inline = true
 	paths := pe.Paths()
 	if pe.Trunc {
 		r.Undec("C05.R1", cn, p.Pos(et.Pos()), "path enumeration truncated")
 	}
-	errStores := storesToField(et, pkgTemplate, "Template", "escapeErr")
-	treeStores := storesToField(et, pkgTemplate, "Template", "Tree")
-	textTreeStores := storesToField(et, "text/template", "Template", "Tree")
-	commits := callsIn(et, "(*"+pkgTemplate+".escaper).commit")
+	// the stores and calls the rule looks for may sit in helpers whose paths were spliced in
+	var errStores, treeStores, textTreeStores []*ssa.Store
+	var commits []*ssa.Call
+	for _, g := range pe.Funcs() {
+		errStores = append(errStores, storesToField(g, pkgTemplate, "Template", "escapeErr")...)
+		treeStores = append(treeStores, storesToField(g, pkgTemplate, "Template", "Tree")...)
+		textTreeStores = append(textTreeStores, storesToField(g, "text/template", "Template", "Tree")...)
+		commits = append(commits, callsIn(g, "(*"+pkgTemplate+".escaper).commit")...)
+	}
 	var okStores, failStores, nilTree, nilTextTree []*ssa.Store
 	for _, st := range errStores {
 		if u, ok := st.Val.(*ssa.UnOp); ok {
@@ -103,7 +109,11 @@ func runC05(p *Program, r *Report) {
 	}
 	// memo update: esc.output[name] = context{state: stateError, …}
 	var memoErr []*ssa.MapUpdate
-	for _, b := range et.Blocks {
+	var allBlocks []*ssa.BasicBlock
+	for _, g := range pe.Funcs() {
+		allBlocks = append(allBlocks, g.Blocks...)
+	}
+	for _, b := range allBlocks {
 		for _, in := range b.Instrs {
 			mu, ok := in.(*ssa.MapUpdate)
 			if !ok {
@@ -200,6 +210,8 @@ func runC05(p *Program, r *Report) {
 		}
 		gn := fnName(g)
 		gpe := newPathExplorer(p, g)
+		gpe.Inline = true
+		gpe.Atomic = map[*ssa.Function]bool{et: true}
 		errIdx := g.Signature.Results().Len() - 1
 		calls := callsIn(g, pkgTemplate+".escapeTemplate")
 		n := 0
